@@ -14,7 +14,8 @@ EXPLANATION = (
     "(s, d) of consecutive nodes of the path in the graph that was searched; (b) stores into latency_cp keyed "
     "through int(s) accumulate after a reset to 0 (a load node and its instruction map to the same line); (c) the "
     "last instruction's latency is part of the maximised weight: every kernel line has an edge to the virtual "
-    "sink whose weight is its latency (latency_wo_load when its load stage is a separate node), so the path is "
+    "sink, added unconditionally on every iteration over the kernel, whose weight is its latency (latency_wo_load when "
+    "its load stage is a separate node), so the path is "
     "never shorter than any single instruction. R4: CriticalPath in the dict and the CP figure of the text are "
     "the same expression over get_critical_path(). R5: the returned lines are exactly the kernel lines on the path."
 )
